@@ -1,6 +1,7 @@
 // Constant probe for C18 (feeds translators/dv/gen_consts.py -> coq/Dv/GenConsts.v).
 //   cost_infinity   config.CostInfinity as the compiler evaluates it (through the verif hook Vf18Consts)
-//   seq_init/clock_ms  BEHAVIOURAL: the advertisement sequence number of a Router constructed at a known virtual time
+//   tie_smaller_wins   BEHAVIOURAL: two neighbours offer one destination at the same cost; which becomes nextHop1
+//   seq_init/clock_ns  BEHAVIOURAL: the advertisement sequence number of a Router constructed at a known virtual time
 //   local_cost      BEHAVIOURAL: one real ribUpdate of an advertisement with known costs on a real router;
 //                   stored cost minus advertised cost (plain entry), and the same through the poison-reverse branch
 // Nothing here depends on the names of locals, declaration style or statement order inside ribUpdate.
@@ -31,7 +32,7 @@ func TestConsts(t *testing.T) {
 		name := func(s string) enc.Name { n, _ := enc.NameFromStr(s); return n }
 		me, nb, x, y, z := name("/net/probe"), name("/net/nb"), name("/net/x"), name("/net/y"), name("/net/z")
 		// the unit of the initial advertisement sequence number: a Router constructed at a known virtual time
-		fmt.Fprintf(f, "clock_ms %d\n", time.Now().UnixMilli())
+		fmt.Fprintf(f, "clock_ns %d\n", time.Now().UnixNano())
 		r := newRouter(me)
 		fmt.Fprintf(f, "seq_init %d\n", r.Vf18AdvertSeq())
 		r.Vf18AddNeighbor(nb)
@@ -51,6 +52,29 @@ func TestConsts(t *testing.T) {
 			}
 			if e.Name.Equal(z) {
 				fmt.Fprintf(f, "local_cost_poison %d\n", int64(c)-5)
+			}
+		}
+		// the tie-break: one destination offered by two neighbours at the same cost — which one becomes nextHop1
+		n2 := name("/net/nb2")
+		r.Vf18AddNeighbor(n2)
+		tieDest := name("/net/tie")
+		tieAdv := &tlv.Advertisement{Entries: []*tlv.AdvEntry{
+			{Destination: &tlv.Destination{Name: tieDest}, NextHop: &tlv.Destination{Name: y}, Cost: 4, OtherCost: 16}}}
+		r.Vf18RibUpdate(nb, tieAdv)
+		r.Vf18RibUpdate(n2, tieAdv)
+		synctest.Wait()
+		for _, e := range r.Vf18Rib().Vf18Dump() {
+			if e.Name.Equal(tieDest) && len(e.Costs) == 2 && e.Lowest1 == e.Lowest2 {
+				lo, hi := nb.Hash(), n2.Hash()
+				if lo > hi {
+					lo, hi = hi, lo
+				}
+				switch e.NextHop1 {
+				case lo:
+					fmt.Fprintf(f, "tie_smaller_wins 1\n")
+				case hi:
+					fmt.Fprintf(f, "tie_smaller_wins 0\n")
+				}
 			}
 		}
 		r.Vf18StopNfdc()
